@@ -131,6 +131,47 @@ def stems_check(v, tmp, seed, tier):
     return len(stems)
 
 
+def naming_options_check(v, tmp):
+    """-o gives the stem of the files written, -n the prefix of the aliases, each defaulting to the (sanitised) stem of
+    the UFL file: every combination, with two input files at once (the i-th -o / -n belongs to the i-th file)"""
+    src = os.path.join(tmp, "naming")
+    os.makedirs(src)
+    files = [os.path.join(src, "alpha.py"), os.path.join(src, "beta.py")]
+    for f in files:
+        open(f, "w").write(UFL_TINY)
+    inc = os.path.join(common.REPO, "ffcx", "codegeneration")
+    n = 0
+    for label, extra, stems, prefixes in [
+            ("-o", ["-o", "kernA", "kernB"], ["kernA", "kernB"], ["alpha", "beta"]),
+            ("-n", ["-n", "femA", "femB"], ["alpha", "beta"], ["femA", "femB"]),
+            ("-o -n", ["-o", "kernA", "kernB", "-n", "femA", "femB"], ["kernA", "kernB"], ["femA", "femB"])]:
+        outd = os.path.join(tmp, "naming_out_" + str(n))
+        os.makedirs(outd)
+        n += 1
+        p = run_cli(tmp, ["-d", outd, *extra, "-i", *files])
+        written = sorted(os.listdir(outd))
+        want = sorted(x + ext for x in stems for ext in (".c", ".h"))
+        ok = p.returncode == 0 and written == want
+        why = f"files written {written}, expected {want}" + ("" if p.returncode == 0 else "; " + p.stderr[-200:])
+        if ok:
+            for st, pre in zip(stems, prefixes):
+                header = open(os.path.join(outd, st + ".h")).read()
+                decl = re.findall(r"^extern\s+ufcx_\w+\*?\s+(\S+);", header, re.M)
+                alias = f"form_{pre}_a"
+                if alias not in decl:
+                    ok, why = False, f"{st}.h does not declare {alias}; it declares {decl[:4]}"
+                    break
+                cc = subprocess.run(["gcc", "-std=c17", "-fsyntax-only", "-Werror=implicit-function-declaration", "-I", inc, os.path.join(outd, st + ".c")],
+                                    capture_output=True, text=True)
+                if cc.returncode != 0 or alias not in open(os.path.join(outd, st + ".c")).read():
+                    ok, why = False, f"{st}.c does not compile or does not define {alias}: {cc.stderr[:160]}"
+                    break
+        v.oblige(ok)
+        if not ok:
+            v.violation(f"cli-naming:{label}", f"ffcx {' '.join(extra)} -i alpha.py beta.py: {why}", {"args": extra, "ufl": UFL_TINY, "written": written})
+    return n
+
+
 RUNNER = r'''
 import sys, os
 sys.path.insert(0, os.environ["FFCX_REPO"])
@@ -292,6 +333,7 @@ def run(v, tier, seed, g):
                 v.oblige(False)
                 v.violation("cli-vs-jit-run", f"comparison could not run: {e} {r1.stderr[-200:]} {r2.stderr[-200:]}", {}, no_input=True)
         nstems = stems_check(v, tmp, seed, tier)
+        nnaming = naming_options_check(v, tmp)
         # 5. option precedence over the three sources, every subset
         pw = os.path.join(tmp, "pwd")
         xdg = os.path.join(tmp, "xdg")
